@@ -335,8 +335,32 @@ func init() {
 		if t, ok := m.texts[name]; ok {
 			return tuple{append([]value{}, strBytes(t)...), iface{}}
 		}
+		if d, ok := m.data[name]; ok {
+			// a data file read whole: every Read of its stream until end of file
+			st := append(structure{}, (*d).(structure)...)
+			var cell value = st
+			ds := iface{types.NewPointer(fr.i.prog.ImportedPackage(VHPath).Type("DocStream").Type()), &cell}
+			var all []value
+			for n := 0; n < 10000; n++ {
+				buf := make([]value, 64)
+				for i := range buf {
+					buf[i] = byte(0)
+				}
+				res := callMethod(fr, ds, "Read", buf).(tuple)
+				k := int(fr.concreteInt(res[0], "Read count"))
+				all = append(all, buf[:k]...)
+				if e, ok := res[1].(iface); ok && e.t != nil {
+					if sameIface(e, ioEOF(fr)) {
+						return tuple{all, iface{}}
+					}
+					return tuple{all, e}
+				}
+			}
+			unsup("os.ReadFile: the stream does not end")
+		}
 		return tuple{[]value(nil), pathError(fr, "open", name, "no such file or directory")}
 	})
+	reg(VHPath+".StdoutLen", func(fr *frame, args []value) value { return len(fr.osm().stdout.wbuf) })
 	reg("os.Open", func(fr *frame, args []value) value {
 		m := fr.osm()
 		name := keyString(args[0])
